@@ -27,6 +27,7 @@ func runHistory(t *rapid.T, col *evid.Collector, f Focus, weights map[string]int
 		"resubmitMarked": m.opResubmitMarked,
 		"block":          m.opBlock,
 		"prove":          m.opProve,
+		"peersync":       m.opPeerSync,
 	}
 	// rapid's Repeat picks actions uniformly; weights are realised by aliasing an action under
 	// several names.
@@ -37,6 +38,7 @@ func runHistory(t *rapid.T, col *evid.Collector, f Focus, weights map[string]int
 		}
 	}
 	t.Repeat(actions)
+	m.finalCheck = true
 	m.afterStepFull(true)
 	if nt(m) {
 		k.NonTrivial = true
@@ -186,15 +188,71 @@ func TestProp_C12_crash(t *testing.T) {
 
 // ---- C19 (structural half) --------------------------------------------------------------------
 
-const ruleC19 = genDesc + "; oracle after EVERY step for max in {1,2,3,10,50}: every locator hash is an accepted header (best chain or side branch), best-chain hashes come newest first beginning with the tip's parent (genesis alone at height 0), at most max of them, no hash twice; non-trivial = history with >=1 live side branch and a prune/load; distinct = hash of the abstract operation list"
+const ruleC19 = genDesc + "; oracle after EVERY step for max in {1,2,3,10,50}: every locator hash is an accepted header (best chain or side branch), best-chain hashes come newest first beginning with the tip's parent (genesis alone at height 0), at most max of them, no hash twice; plus a simulated protocol-conformant peer (its best chain = the chain of a drawn held header plus 0..4 unseen headers) that answers the locator with the headers after the first locator hash on ITS chain: the first returned header must connect (never unknown-parent / after-genesis) and a peer on our best chain must answer starting with our tip; non-trivial = history with >=1 live side branch and a prune/load; distinct = hash of the abstract operation list"
 
-var weightsC19 = map[string]int{"extend": 8, "late": 1, "clean": 2, "reload": 1}
+var weightsC19 = map[string]int{"extend": 8, "late": 1, "clean": 2, "reload": 1, "peersync": 4}
 
 func TestProp_C19_locator(t *testing.T) {
 	col := evid.For("C19", "locator", ruleC19)
 	rapid.Check(t, func(t *rapid.T) {
 		runHistory(t, col, Focus{ID: "C19", Locators: true}, weightsC19, func(m *M) bool {
+			if m.peerSyncs > 0 {
+				m.k.Class("conformant_peer_reply_submitted")
+			}
 			return len(m.pools().sideTips) > 0 && (m.cleans > 0 || m.loads > 0)
+		})
+	})
+}
+
+// ---- real-depth legs ----------------------------------------------------------------------------
+
+const deepDesc = "REAL prune depth: a straight base chain of 9990..20050 headers (lengths around the 10000 prune depth, the 1000-header file boundaries and the automatic clean at heights 10000/20000), then up to ~100 generated operations with the real Clean / Save / Load (no hooks, MaxBranchDepth 144/30/6), including Save of an UNCONSOLIDATED best chain (the production shutdown path); heights are read individually at the recent window, file boundaries, the prune boundary, the auto-clean heights and pseudo-random positions, ranges across those boundaries, and the whole chain once at the end; "
+
+var weightsDeep = map[string]int{"extend": 8, "dup": 1, "late": 1, "clean": 2, "save": 2, "reload": 2}
+
+func TestProp_C01_deep(t *testing.T) {
+	col := evid.For("C01", "deep", deepDesc+"oracle and non-trivial rule as in the history leg")
+	rapid.Check(t, func(t *rapid.T) {
+		runHistory(t, col, Focus{ID: "C01", RealDepth: true}, weightsDeep, ntC01)
+	})
+}
+
+func TestProp_C09_deep(t *testing.T) {
+	col := evid.For("C09", "deep", deepDesc+"lookup oracle of the lookups leg on every generated header and on the base-chain headers at the sampled heights; non-trivial = a reload or clean with the tip above the prune depth (best-chain history served from storage) and a side branch")
+	rapid.Check(t, func(t *rapid.T) {
+		runHistory(t, col, Focus{ID: "C09", RealDepth: true, Lookups: true}, weightsDeep, func(m *M) bool {
+			return (m.cleans > 0 || m.loads > 0) && len(m.pools().sideTips) > 0
+		})
+	})
+}
+
+func TestProp_C10_deep(t *testing.T) {
+	col := evid.For("C10", "deep", deepDesc+"before/after snapshot equality around every real Clean (and the automatic clean), verdict and lookup oracles afterwards; non-trivial = a Clean with a side branch alive")
+	w := map[string]int{"extend": 8, "late": 1, "clean": 4, "dup": 1}
+	rapid.Check(t, func(t *rapid.T) {
+		runHistory(t, col, Focus{ID: "C10", RealDepth: true, CleanSnap: true, Verdicts: true, Lookups: true}, w, func(m *M) bool {
+			return m.cleans > 0 && len(m.pools().sideTips) > 0
+		})
+	})
+}
+
+func TestProp_C11_deep(t *testing.T) {
+	col := evid.For("C11", "deep", deepDesc+"Save (consolidated or not) + real Load twin in lock-step as in the saveload leg; non-trivial = a side branch alive at Save")
+	w := map[string]int{"extend": 8, "late": 1, "clean": 1, "twin": 3, "reload": 1}
+	rapid.Check(t, func(t *rapid.T) {
+		runHistory(t, col, Focus{ID: "C11", RealDepth: true, Twin: true, Verdicts: true, Lookups: true}, w, func(m *M) bool {
+			return m.sideAtSave > 0
+		})
+	})
+}
+
+func TestProp_C12_deep(t *testing.T) {
+	col := evid.For("C12", "deep", deepDesc+"every prefix of the storage writes of every real Clean/Save is loaded with the real Load (sampled heights); non-trivial = an image strictly inside an operation")
+	w := map[string]int{"extend": 8, "late": 1, "clean": 2, "save": 2}
+	rapid.Check(t, func(t *rapid.T) {
+		runHistory(t, col, Focus{ID: "C12", RealDepth: true, Crash: true}, w, func(m *M) bool {
+			col.Count("crash_images", m.crashCount)
+			return m.crashMidCount > 0
 		})
 	})
 }
